@@ -31,6 +31,7 @@ def main():
         print(r.stderr)
         sys.exit(2)
     rows = []
+    replay_bad = []
     try:
         files = sorted({f for p in a.patterns for f in glob.glob(os.path.join(a.dir, p + ".patch")) + glob.glob(os.path.join(a.dir, p, "patch.diff"))})
         for f in files:
@@ -56,7 +57,18 @@ def main():
                 chk = os.path.join(VERIF, "checks", prop.lower() + ".py")
                 r = subprocess.run([sys.executable, chk, "--tier", "quick", "--budget", str(a.budget), "--no-evidence"], env=env, cwd=VERIF, capture_output=True, text=True)
                 classes = sorted(set(re.findall(r"violation \[([^\]]+)\]", r.stdout)))
-                verdicts.append((prop, r.returncode, classes, round(time.time() - t0)))
+                # replay contract: a reported replay file reproduces (exit 1, same digest) on the patched
+                # tree in a fresh process and does not reproduce on the unpatched /repo
+                rp = re.findall(r"VIOLATION property=\S+ replay=(\S+)", r.stdout)[:2]
+                rep = []
+                for path in rp:
+                    a1 = subprocess.run([sys.executable, chk, "--replay", path], env=env, cwd=VERIF, capture_output=True, text=True)
+                    a2 = subprocess.run([sys.executable, chk, "--replay", path], env=dict(os.environ), cwd=VERIF, capture_output=True, text=True)
+                    dig = "digest DIFFERS" not in a1.stdout
+                    rep.append(f"replay:{a1.returncode}/{'same-digest' if dig else 'DIGEST-DIFFERS'}/clean-tree:{a2.returncode}")
+                    if a1.returncode != 1 or not dig or a2.returncode != 0:
+                        replay_bad.append((name, path, a1.returncode, dig, a2.returncode))
+                verdicts.append((prop, r.returncode, classes + rep, round(time.time() - t0)))
             detected = any(v[1] == 1 for v in verdicts)
             harness = any(v[1] == 2 for v in verdicts)
             ok = (detected and expect == "detect") or (not detected and not harness and expect == "silent")
@@ -66,8 +78,8 @@ def main():
     finally:
         sh(f"git -C /repo worktree remove --force {WT}")
     bad = [r for r in rows if r[1] != "OK"]
-    print(f"{len(rows) - len(bad)}/{len(rows)} as expected")
-    sys.exit(0 if not bad else 1)
+    print(f"{len(rows) - len(bad)}/{len(rows)} as expected; replay contract broken for {len(replay_bad)}: {replay_bad}")
+    sys.exit(0 if not bad and not replay_bad else 1)
 
 
 if __name__ == "__main__":
